@@ -3,6 +3,7 @@ import json
 from fractions import Fraction
 
 import fsamodel as F
+import translate_wfsa as TW
 from fsacheck import WTable, run_w, coq_str
 from common import dec_val, close_enough
 
@@ -37,7 +38,14 @@ def run(ctx):
     quick = ctx.tier == "quick"
     ctx.cov["rule"] = ("random automata (1-4 states, several initial/final states, parallel arcs, epsilon arcs and epsilon cycles, unreachable and dead states, sub-stochastic rational weights) x all strings to length 3: "
                        "m(xs), m.epsremove(xs) (and absence of epsilon arcs), m.total_weight() vs the Coq model (epsilon closure by Lehmann elimination over Qc with star = 1/(1-x), then the forward pass, proved = path sum) and vs the exact matrix oracle; non-trivial = non-zero weight")
-    ok, out = ctx.build(["proofs/WfsaProofs.vo", "proofs/LehmannProof.vo", "proofs/EpsRemove.vo", "proofs/ClosureExtra.vo", "model/EpsSpec.vo"])
+    try:
+        ctx.cov["translators"].append(TW.main())
+        ctx.obligation("translate_wfsa", True)
+        tr_ok = True
+    except TW.Refuse as e:
+        ctx.obligation("translate_wfsa", False, f"translator refused: {e}")
+        tr_ok = False
+    ok, out = ctx.build(["proofs/WfsaProofs.vo", "proofs/LehmannProof.vo", "proofs/EpsRemove.vo", "proofs/GenWfsaBridge.vo", "proofs/ClosureExtra.vo", "model/EpsSpec.vo"]) if tr_ok else (False, "translator refused")
     if ok:
         ctx.prove("props/C11.v")
     else:
